@@ -101,6 +101,11 @@ def convScalar : Ty → Val → Except Err Val
     | some b => .ok (.bool b)
     | none => .error .invalidType
   | .strToBool, _ => .error .invalidType
+  | .toBool, .bool b => .ok (.bool b)
+  | .toBool, .int n => .ok (.bool (n != 0))
+  | .toBool, .str s => match lookupBool St4sd.Gen.C04.strToBoolTable (lower s) with
+    | some b => .ok (.bool b)
+    | none => .error .invalidType
   | .memory, .int n => .ok (.int n)
   | .memory, .bool b => .ok (.int (if b then 1 else 0))
   | .memory, .str s => memoryToBytes s
